@@ -8,6 +8,8 @@
 #include <fcntl.h>
 #include <fstream>
 #include <sstream>
+#include <poll.h>
+#include <signal.h>
 #include <sys/mman.h>
 #include <sys/stat.h>
 #include <sys/wait.h>
@@ -156,7 +158,7 @@ static void account(const PropCfg &cfg, WorkerStats &ws, const Plan &plan, const
     if (v.prop != cfg.id) { ws.other[v.sig]++; continue; }
     auto it = ws.found.find(v.sig);
     if (it == ws.found.end()) {
-      if (ws.found.size() >= 24) continue;
+      if (ws.found.size() >= 3000) continue;
       Found f; f.sig = v.sig; f.cls = v.cls; f.prop = v.prop; f.detail = v.detail; f.seed = seed; f.plan_json = plan.to_json().dump(); f.count = 1;
       ws.found[v.sig] = f;
     } else it->second.count++;
@@ -247,6 +249,26 @@ static void enumerate_scenario(const PropCfg &cfg, WorkerStats &ws, const Plan &
   }
 }
 
+// seed -> plan, exactly as the workers do it (also used to rebuild the plan a crashed worker was executing)
+static Plan make_plan(const PropCfg &cfg, uint64_t seed, bool thorough) {
+  GenOpts go;
+  go.thorough = thorough;
+  go.binding = cfg.mode == 2 ? 0 : (strcmp(cfg.id, "C15") == 0 || strcmp(cfg.id, "C16") == 0 ? -1 : 0);
+  Plan plan = gen_plan(cfg.profile, seed, go);
+  if (cfg.mode == 2) {
+      // restrict to what both bindings express identically at the system-call level
+      for (auto &op : plan.ops) if (op.kind == OP_DRAIN || op.kind == OP_RUN) { if (op.a == 1 || op.a == 5 || op.a == 6) op.a = 2; if (op.b == 1 || op.b == 5 || op.b == 6) op.b = 2; if (op.d > 0) op.d = -op.d; op.e = 0; }
+      for (auto &s : plan.starts) { s.clone = (seed >> 3) & 1; s.argv_null = s.fork; }  // reproc++ cannot express fork with arguments / start without
+      for (auto &op : plan.ops) if (op.kind == OP_START) op.a &= ~1ll;  // no destroy in the forked child (C++ heap is not copied by the simulated fork)
+      {
+        std::vector<Fault> keep;
+        for (auto &f : plan.faults) if (f.op >= 0 && (size_t) f.op < plan.ops.size() && plan.ops[(size_t) f.op].kind != OP_NEW) keep.push_back(f);
+        plan.faults = keep;
+      }
+  }
+  return plan;
+}
+
 static std::string stats_json(const WorkerStats &ws) {
   Json j = Json::obj();
   j.set("cases", (unsigned long long) ws.cases).set("scenarios", (unsigned long long) ws.scenarios).set("nontrivial", (unsigned long long) ws.nontrivial);
@@ -279,24 +301,12 @@ static void write_all(int fd, const std::string &s) {
 static void worker_main(const PropCfg &cfg, int w, int nw, uint64_t base_seed, uint64_t nplans, double secs, bool thorough, Shared *sh, int out_fd,
                         const std::string &hash_file) {
   WorkerStats ws;
-  GenOpts go; go.thorough = thorough; go.binding = cfg.mode == 2 ? 0 : (strcmp(cfg.id, "C15") == 0 || strcmp(cfg.id, "C16") == 0 ? -1 : 0);
   double t_end = now_s() + secs;
   for (uint64_t i = (uint64_t) w; nplans == 0 || i < nplans; i += (uint64_t) nw) {
     uint64_t seed = base_seed * 1000003ull + i;
     sh->cur_seed[w] = seed;
     if (getenv("SIM_PROGRESS")) fprintf(stderr, "w%d i=%llu seed=%llu\n", w, (unsigned long long) i, (unsigned long long) seed);
-    Plan plan = gen_plan(cfg.profile, seed, go);
-    if (cfg.mode == 2) {
-      // restrict to what both bindings express identically at the system-call level
-      for (auto &op : plan.ops) if (op.kind == OP_DRAIN || op.kind == OP_RUN) { if (op.a == 1 || op.a == 5 || op.a == 6) op.a = 2; if (op.b == 1 || op.b == 5 || op.b == 6) op.b = 2; if (op.d > 0) op.d = -op.d; op.e = 0; }
-      for (auto &s : plan.starts) { s.clone = (seed >> 3) & 1; s.argv_null = s.fork; }  // reproc++ cannot express fork with arguments / start without
-      for (auto &op : plan.ops) if (op.kind == OP_START) op.a &= ~1ll;  // no destroy in the forked child (C++ heap is not copied by the simulated fork)
-      {
-        std::vector<Fault> keep;
-        for (auto &f : plan.faults) if (f.op >= 0 && (size_t) f.op < plan.ops.size() && plan.ops[(size_t) f.op].kind != OP_NEW) keep.push_back(f);
-        plan.faults = keep;
-      }
-    }
+    Plan plan = make_plan(cfg, seed, thorough);
     if (ws.samples.size() < 2 && w == 0) ws.samples.push_back(plan.to_json().dump());
     if (cfg.mode == 1) enumerate_scenario(cfg, ws, plan, seed, thorough, t_end);
     else run_one(cfg, ws, plan, seed, (i / (uint64_t) nw) % 97 == 0);
@@ -417,7 +427,7 @@ int main(int argc, char **argv) {
   mkdir(tmpdir.c_str(), 0755);
   mkdir("replays", 0755);
   mkdir(evidence_dir.c_str(), 0755);
-  struct W { pid_t pid; int fd; std::string out; bool dead = false; int status = 0; };
+  struct W { pid_t pid; int fd; std::string out; bool dead = false; bool stuck = false; int status = 0; };
   std::vector<W> ws((size_t) nw);
   fflush(nullptr);
   for (int w = 0; w < nw; w++) {
@@ -433,13 +443,41 @@ int main(int argc, char **argv) {
     ws[(size_t) w].pid = pid;
     ws[(size_t) w].fd = fds[0];
   }
-  // collect
-  for (auto &w : ws) {
-    char buf[65536];
-    for (;;) { ssize_t n = read(w.fd, buf, sizeof buf); if (n <= 0) break; w.out.append(buf, (size_t) n); }
-    close(w.fd);
-    waitpid(w.pid, &w.status, 0);
-    w.dead = !WIFEXITED(w.status) || WEXITSTATUS(w.status) != 0;
+  // collect (with a watchdog: a worker that finishes no plan for 3 minutes is stuck inside one)
+  {
+    std::vector<uint64_t> last_done((size_t) nw, 0);
+    std::vector<double> last_change((size_t) nw, now_s());
+    std::vector<bool> open_((size_t) nw, true);
+    int remaining = nw;
+    const double stuck_s = getenv("SIM_STUCK_SECS") ? atof(getenv("SIM_STUCK_SECS")) : 180.0;
+    while (remaining > 0) {
+      std::vector<struct pollfd> pf;
+      std::vector<int> idx;
+      for (int w = 0; w < nw; w++) if (open_[(size_t) w]) { struct pollfd p; p.fd = ws[(size_t) w].fd; p.events = POLLIN; p.revents = 0; pf.push_back(p); idx.push_back(w); }
+      poll(pf.data(), pf.size(), 1000);
+      for (size_t k = 0; k < pf.size(); k++) {
+        int w = idx[k];
+        W &x = ws[(size_t) w];
+        if (pf[k].revents & (POLLIN | POLLHUP | POLLERR)) {
+          char buf[65536];
+          ssize_t n = read(x.fd, buf, sizeof buf);
+          if (n > 0) { x.out.append(buf, (size_t) n); continue; }
+          close(x.fd);
+          open_[(size_t) w] = false;
+          remaining--;
+          waitpid(x.pid, &x.status, 0);
+          x.dead = !WIFEXITED(x.status) || WEXITSTATUS(x.status) != 0;
+          continue;
+        }
+        uint64_t d = sh->done[w];
+        if (d != last_done[(size_t) w]) { last_done[(size_t) w] = d; last_change[(size_t) w] = now_s(); }
+        else if (now_s() - last_change[(size_t) w] > stuck_s) {
+          kill(x.pid, SIGKILL);
+          x.stuck = true;
+          last_change[(size_t) w] = now_s();
+        }
+      }
+    }
   }
   // merge
   WorkerStats tot;
@@ -451,14 +489,13 @@ int main(int argc, char **argv) {
     if (x.dead) {
       // the plan the worker was executing crashed it: sanitizer report, abort, fatal signal
       uint64_t cs = sh->cur_seed[w];
-      GenOpts go; go.thorough = thorough;
       Found f;
       bool san = WIFEXITED(x.status) && (WEXITSTATUS(x.status) == 77 || WEXITSTATUS(x.status) == 66);
       f.prop = cfg->id; f.cls = "crash";
-      f.sig = std::string(cfg->id) + "/crash/" + (san ? "sanitizer" : WIFSIGNALED(x.status) ? "signal-" + std::to_string(WTERMSIG(x.status)) : "exit");
-      f.detail = "a worker died while executing this plan (sanitizer report, abort or fatal signal)";
+      f.sig = std::string(cfg->id) + "/crash/" + (x.stuck ? "stuck" : san ? "sanitizer" : WIFSIGNALED(x.status) ? "signal-" + std::to_string(WTERMSIG(x.status)) : "exit");
+      f.detail = x.stuck ? "a worker made no progress for minutes while executing this plan (endless loop)" : "a worker died while executing this plan (sanitizer report, abort or fatal signal)";
       f.seed = cs;
-      f.plan_json = gen_plan(cfg->profile, cs, go).to_json().dump();
+      f.plan_json = make_plan(*cfg, cs, thorough).to_json().dump();
       f.count = 1;
       if (cfg->mode == 1) { machinery = machinery || false; }
       found[f.sig] = f;
